@@ -16,6 +16,7 @@ package tsi
 
 import (
 	"fmt"
+	"os"
 	"path/filepath"
 	"time"
 	"unsafe"
@@ -277,6 +278,16 @@ func (ic *IndexCache) reset() error {
 	ic.tagFilterCache.Reset()
 	ic.TagKeyValueCache.Reset()
 	ic.TagFilterCostCache.Reset()
+
+	if ic.store {
+		// the copies saved by the last close are as stale as what was just dropped; they would be
+		// loaded again by a start that follows a crash
+		for _, name := range []string{SeriesKeyToTSIDCacheName, TSIDToSeriesKeyCacheName, TagKeyToTagValueCacheName} {
+			if err := os.RemoveAll(filepath.Join(ic.path, name)); err != nil {
+				return err
+			}
+		}
+	}
 
 	return nil
 }
